@@ -42,6 +42,9 @@ def main():
     if "-j" in sys.argv:
         jobs = int(sys.argv[sys.argv.index("-j") + 1])
     todo = [(k, m) for k, m in enumerate(MUTANTS) if not props or m["prop"] in props]
+    if "-k" in sys.argv:     # only catalogue entries whose name contains the given text
+        pat = sys.argv[sys.argv.index("-k") + 1]
+        todo = [(k, m) for k, m in todo if pat in m["name"]]
     bad = 0
     with cf.ThreadPoolExecutor(jobs) as ex:
         for k, m, status, info in ex.map(lambda km: run_one(*km), todo):
